@@ -182,6 +182,8 @@ enum FailMode {
     Stubborn,
     /// answered with an IIN2 error bit (function not supported / parameter error)
     Rejected,
+    /// the reply to the time WRITE still reports NEED_TIME
+    StillNeedsTime,
 }
 
 async fn scenario(a: &ShardArgs, idx: u64) {
@@ -242,7 +244,11 @@ async fn scenario(a: &ShardArgs, idx: u64) {
         Some(1) => Kind::TimeSync(1),
         _ => Kind::TimeSync(2),
     };
-    let fail: Option<(Kind, FailMode)> = match r.below(14) {
+    let fail: Option<(Kind, FailMode)> = match r.below(18) {
+        14 if ac.auto_time_sync.is_some() => Some((first_ts.clone(), FailMode::BadReply)),
+        15 if ac.auto_time_sync.is_some() => Some((Kind::TimeSync(2), FailMode::BadReply)),
+        16 if ac.auto_time_sync.is_some() => Some((first_ts.clone(), FailMode::Rejected)),
+        17 if ac.auto_time_sync.is_some() => Some((Kind::TimeSync(2), FailMode::StillNeedsTime)),
         10 => Some((Kind::Disable, FailMode::Rejected)),
         11 => Some((Kind::Enable, FailMode::Rejected)),
         12 => Some((Kind::Integrity, FailMode::Rejected)),
@@ -487,8 +493,16 @@ async fn scenario(a: &ShardArgs, idx: u64) {
                 restart_bit = false;
             }
         }
-        if matches!(kind, Kind::TimeSync(2)) {
+        let write_fails = matches!(kind, Kind::TimeSync(2))
+            && fail_left > 0
+            && matches!(&fail, Some((Kind::TimeSync(2), _)));
+        if matches!(kind, Kind::TimeSync(2)) && !write_fails {
             need_time = false;
+        }
+        if write_fails && matches!(&fail, Some((_, FailMode::StillNeedsTime))) {
+            fail_left -= 1;
+            failing_reply = true;
+            need_time = true;
         }
         let class_bits = if class_bits_at
             .map(|p| answered_count >= p && answered_count < p + 2)
@@ -519,7 +533,25 @@ async fn scenario(a: &ShardArgs, idx: u64) {
             if *fk == kind && fail_left > 0 {
                 fail_left -= 1;
                 failing_reply = true;
-                body = vec![30, 1, 0, 0]; // range header without its stop octet
+                body = match kind {
+                    // a delay measurement is one g52v2 object, no more and no less, and not longer than the round trip
+                    Kind::TimeSync(1) => match r.below(6) {
+                        0 => ra::B { bytes: vec![] }.count8(52, 1, 1, &[0, 0]).bytes,
+                        1 => ra::B { bytes: vec![] }.count8(52, 2, 2, &[0, 0, 0, 0]).bytes,
+                        2 => vec![],
+                        3 => ra::B { bytes: vec![] }.count8(52, 2, 1, &[0, 0]).count8(52, 2, 1, &[0, 0]).bytes,
+                        4 => ra::B { bytes: vec![] }.count8(52, 2, 1, &[0x60, 0xEA]).bytes,
+                        _ => vec![52, 2, 7],
+                    },
+                    // the other steps are answered without objects
+                    Kind::TimeSync(_) => match r.below(3) {
+                        0 => ra::B { bytes: vec![] }.count8(52, 2, 1, &[0, 0]).bytes,
+                        1 => ra::B { bytes: vec![] }.range8(30, 1, 0, 0, &[1, 9, 0, 0, 0]).bytes,
+                        _ => vec![50, 1, 7],
+                    },
+                    _ => vec![30, 1, 0, 0], // range header without its stop octet
+                };
+                out::count(&format!("bad_reply_to_{}", kind_name(&kind)), 1);
             }
         }
         let mut iin2 = iin2;
@@ -536,7 +568,7 @@ async fn scenario(a: &ShardArgs, idx: u64) {
                 body = vec![];
                 // a rejected READ is a failed integrity poll (retried with back-off); a rejected DISABLE / ENABLE / clear-restart
                 // is a final answer for this library (it warns and moves on) - the property constrains the delays of retries, not their existence
-                failing_reply = kind == Kind::Integrity;
+                failing_reply = kind == Kind::Integrity || matches!(kind, Kind::TimeSync(_));
                 if kind == Kind::ClearRestart {
                     // the write was refused: the bit is still set
                     restart_bit = true;
@@ -601,21 +633,30 @@ async fn scenario(a: &ShardArgs, idx: u64) {
     if let Some((fk, mode)) = &fail {
         let mut epochs: Vec<u32> = log.iter().map(|x| x.epoch).collect();
         epochs.dedup();
+        // a failed step of a time synchronisation is retried from the first step of the procedure
+        let rk = if matches!(fk, Kind::TimeSync(_)) { first_ts.clone() } else { fk.clone() };
         for ep in epochs {
-            let idxs: Vec<usize> = log
+            let entries: Vec<usize> = log
                 .iter()
                 .enumerate()
-                .filter(|(_, x)| x.epoch == ep && x.kind == *fk)
+                .filter(|(_, x)| x.epoch == ep)
                 .map(|(i, _)| i)
                 .collect();
             let mut d = ac.retry_min_ms;
-            for w in idxs.windows(2) {
-                let (x, y) = (&log[w[0]], &log[w[1]]);
+            for (pos, &i) in entries.iter().enumerate() {
+                let x = &log[i];
+                if x.kind != *fk {
+                    continue;
+                }
                 let Some(fa) = x.failed_at else {
                     d = ac.retry_min_ms;
                     continue;
                 };
-                let clean = w[1] == w[0] + 1;
+                let Some(&j) = entries[pos + 1..].iter().find(|j| log[**j].kind == rk) else {
+                    continue;
+                };
+                let y = &log[j];
+                let clean = j == i + 1;
                 let want = fa + d;
                 if y.t < want {
                     violations.push(("M4_backoff".into(), "early".into(), format!("{fk:?} ({mode:?}): retry at t={} but the previous attempt failed at t={fa} and the delay is {d} (min {} max {})", y.t, ac.retry_min_ms, ac.retry_max_ms)));
@@ -624,6 +665,9 @@ async fn scenario(a: &ShardArgs, idx: u64) {
                 } else if clean {
                     out::count("M4_backoff_ok", 1);
                     out::count(&format!("M4_backoff_ok_{mode:?}"), 1);
+                    if matches!(fk, Kind::TimeSync(_)) {
+                        out::count(&format!("M4_backoff_ok_time_sync_{mode:?}"), 1);
+                    }
                     if d == ac.retry_max_ms && ac.retry_max_ms > ac.retry_min_ms {
                         out::count("M4_backoff_at_max_ok", 1);
                     }
